@@ -20,7 +20,7 @@ def main():
             print("translator of %s failed closed: %s" % (chk.prop, e))
     with common.CoqLock():
         common.coq_makefile()
-        rc, out = common.sh("timeout 3000 make -j14 TIMED=", cwd=common.COQ, timeout=3100)
+        rc, out = common.sh("timeout 3000 make -k -j14 TIMED=", cwd=common.COQ, timeout=3100)
     sys.stdout.write(out[-4000:])
     if rc != 0:
         print("setup: Coq build failed (checks will report it)")
